@@ -8,9 +8,11 @@ import (
 	"sort"
 	"strings"
 
+	"github.com/marekgalovic/anndb/cluster"
 	"github.com/marekgalovic/anndb/index"
 	pb "github.com/marekgalovic/anndb/protobuf"
 	"github.com/marekgalovic/anndb/storage"
+	"github.com/marekgalovic/anndb/storage/raft"
 
 	"github.com/golang/protobuf/proto"
 	uuid "github.com/satori/go.uuid"
@@ -124,9 +126,12 @@ type soloPartition struct {
 }
 
 func newSoloPartition(r *rng, dim int, space pb.Space) *soloPartition {
-	c := newSimCluster([]uint64{1})
+	// the partition's raft group is never loaded: the store is not touched and can be shared by all cases of a run
+	quietLogs()
+	conn, _ := cluster.NewConn(1, "sim-1", "")
+	n := &simNode{id: 1, conn: conn, db: sharedBadger(), datasets: map[uuid.UUID]*storage.Dataset{}}
+	n.transport = raft.NewTransport(1, "sim-1", conn)
 	meta := newDatasetMeta(r, uint32(dim), space, [][]uint64{{1}}, 1)
-	n := c.nodes[1]
 	ds, err := storage.VerifNewDataset(cloneDataset(meta), n.db, n.transport, n.conn)
 	if err != nil {
 		panic(err)
